@@ -23,8 +23,9 @@ and `process` joins the data lines with "\n".
 
 The second half is a renderer producing every spec-conformant encoding the property names:
 event field present or absent, a space after the colon or not, CRLF or LF per line, comment
-lines and ignored fields (`id:`, `retry:`) before any field line, several events, and the
-three ways a stream may end (blank line, end of file after the last line terminator, end
+lines and ignored fields (`id:`, `retry:`) before any field line and before the blank line,
+events of any type with or without data lines (data-less keep-alives, comment-only events,
+extra blank lines) in any order, and the three ways a stream may end (blank line, end of file after the last line terminator, end
 of file inside the last line).
 -/
 namespace Verif.Model.Sse
@@ -137,9 +138,12 @@ def renderField (name : Str) (v : Str) (c : FieldChoice) : List Str :=
 
 structure Event where
   name : Option Str              -- none = no event field on the wire
-  data : List Str                -- the data lines
+  data : List Str                -- the data lines; [] = a data-less event (keep-alive): it dispatches
+                                 -- nothing and, per the grammar, resets the event type
   nameChoice : FieldChoice
   dataChoices : List FieldChoice -- one per data line (missing ones default)
+  after : List Ignored := []     -- ignored lines between the last field line and the blank line
+                                 -- (with no name and no data: a comment-only / empty event)
   deriving Repr, DecidableEq
 
 def renderData : List Str → List FieldChoice → List Str
@@ -152,6 +156,7 @@ def renderEventBody (e : Event) : List Str :=
   (match e.name with
    | none => []
    | some n => renderField sEvent n e.nameChoice) ++ renderData e.data e.dataChoices
+  ++ e.after.map Ignored.line
 
 def renderEvent (e : Event) : List Str := renderEventBody e ++ [[]]
 
@@ -210,7 +215,7 @@ def okName (n : Str) : Bool :=
   (match n.getLast? with | some c => !pyIsSpace c | none => true)
 
 def Conformant (e : Event) : Bool :=
-  !e.data.isEmpty && okData e.data e.dataChoices &&
+  e.after.all Ignored.ok && okData e.data e.dataChoices &&
   (match e.name with
    | none => true
    | some n => okVal n e.nameChoice.space && okName n && e.nameChoice.ok)
